@@ -2,6 +2,8 @@ package main
 
 import (
 	"fmt"
+	"math/big"
+	"strings"
 
 	"golang.org/x/tools/go/ssa"
 )
@@ -13,12 +15,13 @@ func init() {
 		"(R4) tree-too-small ⇒ 400, surplus leaves ⇒ 500, any leaf whose index ≠ start + i ⇒ 500, garbled root ⇒ 500 before the success return; "+
 		"(R5) entry i of the response is {leaf_input ← leaves[i].LeafValue, extra_data ← leaves[i].ExtraData} of the same leaf, appended in slice order from the backend's reply; get-entry-and-proof relays the same two fields; "+
 		"(R6) the entry decoder reads leaf_input as MerkleTreeLeaf and extra_data as the chain structure the writer used for that entry type, and clients index entries start + i and send start/end under their RFC names. "+
-		"NOT covered: overflow at the int64 boundaries of the range arithmetic (needs a value-range analysis, recorded as known finding), that the backend returns what was stored, JSON/base64 fidelity (stdlib).",
+		"(R2 also) every observed value of the range arithmetic stays within int64 for all start / end / maxima ≥ 1 (Fourier–Motzkin entailment per path) and the request Count is in [1, max]. "+
+		"NOT covered: that the backend returns what was stored, JSON/base64 fidelity (stdlib), maxima < 1.",
 		runC07)
 }
 
 func runC07(r *Run) {
-	r.Assume("integer arithmetic is evaluated over ideal integers for the identities of R2 (no wrap-around); the boundary case is listed separately")
+	r.Assume("linear facts are read off comparisons whose operands are themselves shown to be in range (induction along the path)")
 	const S = "strconv.ParseInt((*http.Request).FormValue(p0, \"start\"), 10, 64)#0"
 	const E = "strconv.ParseInt((*http.Request).FormValue(p0, \"end\"), 10, 64)#0"
 
@@ -36,63 +39,101 @@ func runC07(r *Run) {
 		r.FailEdge(fn, "parse", EdgeSpec{Name: "end-negative", Atom: ordAtomR(E, "0"), Bad: "<", Want: wantErr(true)})
 		r.FailEdge(fn, "parse", EdgeSpec{Name: "start-after-end", Atom: ordAtomR(S, E), Bad: ">", Want: wantErr(true)})
 
+	}
+
+	if fn := r.Fn("trillian/ctfe.parseGetEntriesRange"); fn != nil {
+		// R3 (bounded range analysis): no observed value of the range arithmetic leaves
+		// int64 for any start / end / maximum, and the returned range satisfies the
+		// statement: start ≤ end_out ≤ end_in and 1 ≤ end_out − start + 1 ≤ max.
 		r.Rule("C07.R2")
-		// decision table over (count ? max) × align
-		atoms := []RuleAtom{
-			{Name: "cnt", OrdA: "*" + E + "*", OrdB: "p1"},
-			{Name: "align", Pat: "*g:trillian/ctfe.alignGetEntries"},
-			{Name: "neg0", OrdA: S, OrdB: "0", Dom: []string{">"}},
-			{Name: "neg1", OrdA: E, OrdB: "0", Dom: []string{">"}},
-			{Name: "ord", OrdA: S, OrdB: E, Dom: []string{"<"}},
-			{Name: "e0", Pat: "nil?strconv.ParseInt(*\"start\"*)#1", Dom: []string{"nil"}},
-			{Name: "e1", Pat: "nil?strconv.ParseInt(*\"end\"*)#1", Dom: []string{"nil"}},
+		r.Assume("the configured maximum (MaxGetEntriesAllowed) is at least 1")
+		alignKey := ""
+		for k := range r.D.AtomsOf(fn) {
+			if glob("*g:trillian/ctfe.alignGetEntries", k) {
+				alignKey = k
+			}
 		}
-		lS, lE := "+"+S, "+"+E
-		trunc := "+" + S + " +p1 -1"
-		if S > "p1" { // canonical order of the normal form is textual
-			trunc = "+p1 +" + S + " -1"
-		}
-		res, err := r.D.Table(fn, nil, nil, atoms, func(val map[string]string, reach *Reach, s Sigma) {
-			var ok []*ssa.Return
-			for _, ret := range reachableReturns(fn, reach) {
-				if errKind(ret.Results[2]) == "nil" {
-					ok = append(ok, ret)
+		r.Check("parseGetEntriesRange:alignment-flag", alignKey != "", r.FnPos(fn), "alignment is conditional on the align_getentries flag")
+		sIn, eIn, mx := linLeaf(S), linLeaf(E), linLeaf("p1")
+		one := LinForm{Coef: map[string]int64{}, Const: 1}
+		n := eIn.add(sIn, -1).add(one, 1) // ideal size of the requested range
+		seenCase := map[string]bool{}
+		post := map[string]bool{}
+		r.RangeCheck(fn, "parseGetEntriesRange", RangeSpec{
+			Assume: []string{"p1>=1"},
+			Post: func(r *Run, key string, ret *ssa.Return, facts []ineq, lin func(ssa.Value) LinForm) {
+				if len(ret.Results) != 3 || errKind(ret.Results[2]) != "nil" {
+					return
 				}
-			}
-			k := fmt.Sprintf("range[count%smax,align=%s]", val["cnt"], val["align"])
-			if len(ok) != 1 {
-				r.Fail(k, r.FnPos(fn), fmt.Sprintf("%d success returns reachable under %s", len(ok), s))
-				return
-			}
-			ret := ok[0]
-			gotS := r.D.Lin(ret.Results[0], reach).String()
-			gotE := r.D.Lin(ret.Results[1], reach).String()
-			r.Check(k+".start", gotS == lS, r.Where(ret), "returned start = "+gotS+" (the parsed start)")
-			// base end before alignment
-			base := lE
-			if val["cnt"] == ">" {
-				base = trunc
-			}
-			want := base
-			if val["align"] == "T" && val["cnt"] != "<" {
-				// end' = end − ((end + 1) mod max)
-				basePlus1 := ""
-				if val["cnt"] == ">" {
-					basePlus1 = "+" + S + " +p1"
-					if S > "p1" {
-						basePlus1 = "+p1 +" + S
+				so, eo := lin(ret.Results[0]), lin(ret.Results[1])
+				// which case of the statement does this path fall in?
+				le := entailsLE(facts, n.add(mx, -1), nil, 1)           // n ≤ max
+				lt := entailsLE(facts, n.add(mx, -1), big.NewInt(1), 1) // n < max
+				gt := entailsLE(facts, mx.add(n, -1), big.NewInt(1), 1) // n > max
+				align := false
+				for _, q := range facts {
+					_ = q
+				}
+				// the alignment flag is a boolean atom of σ: recover it from reachability of the % operation
+				eachInstr(fn, func(in ssa.Instruction) {
+					if b, ok := in.(*ssa.BinOp); ok && b.Op.String() == "%" {
+						if strings.Contains(eo.String(), "rem(") || strings.Contains(lin(b).String(), "rem(") && strings.Contains(eo.String(), "rem(") {
+							align = true
+						}
 					}
-				} else {
-					basePlus1 = "+" + E + " +1"
+				})
+				base := eIn
+				cname := "untruncated"
+				if gt {
+					base = sIn.add(mx, 1).add(one, -1)
+					cname = "truncated"
+				} else if !le {
+					post["undecided: a feasible path does not determine n ? max"] = false
+					return
 				}
-				want = lin2(base, "-rem("+basePlus1+", +p1)")
-			}
-			r.Check(k+".end", gotE == want, r.Where(ret), fmt.Sprintf("returned end = %s; property: %s", gotE, want))
+				want := base
+				if align {
+					if lt {
+						post["alignment applied to a range smaller than the maximum"] = false
+						return
+					}
+					d := linLeaf("rem(" + base.add(one, 1).String() + ", " + mx.String() + ")")
+					want = base.add(d, -1)
+					cname += ",aligned"
+				}
+				seenCase[cname] = true
+				eq := func(a, b LinForm) bool { return a.String() == b.String() }
+				set := func(name string, ok bool) {
+					if old, seen := post[name]; !seen || (old && !ok) {
+						post[name] = ok
+					}
+				}
+				set("start_out = start", eq(so, sIn))
+				set("end_out["+cname+"] = "+want.String(), eq(eo, want))
+				set("start ≤ end_out", entailsLE(facts, so.add(eo, -1), nil, 1))
+				set("end_out ≤ end_in (coercion only shortens)", entailsLE(facts, eo.add(eIn, -1), nil, 1))
+				set("end_out − start + 1 ≤ max", entailsLE(facts, eo.add(so, -1).add(mx, -1), big.NewInt(1), 1))
+				if !eq(eo, want) {
+					post["end_out["+cname+"] = "+want.String()] = false
+					post["  got "+eo.String()] = false
+				}
+			},
 		})
-		if err != nil {
-			r.Fail("range:table", r.FnPos(fn), "undecided: "+err.Error())
-		} else {
-			r.Valuations += res.Valuations
+		for _, k := range keysOf(post) {
+			r.Check("parseGetEntriesRange:post:"+k, post[k], r.FnPos(fn), "holds on every feasible path: "+k)
+		}
+		for _, c := range []string{"untruncated", "truncated", "untruncated,aligned", "truncated,aligned"} {
+			r.Check("parseGetEntriesRange:case:"+c, seenCase[c], r.FnPos(fn), "the case '"+c+"' of the statement is realised by some feasible path")
+		}
+		// alignment happens only with the flag on: with the flag off no remainder is taken
+		if alignKey != "" {
+			var rems []ssa.Instruction
+			eachInstr(fn, func(in ssa.Instruction) {
+				if b, ok := in.(*ssa.BinOp); ok && b.Op.String() == "%" {
+					rems = append(rems, in)
+				}
+			})
+			r.MustGuard(fn, "parseGetEntriesRange:no-alignment-when-off", alignKey, "F", rems, "alignment arithmetic")
 		}
 	}
 
@@ -118,6 +159,21 @@ func runC07(r *Run) {
 					got := r.D.Lin(st.Val, nil).String()
 					want := lin2("+trillian/ctfe.parseGetEntriesRange(p3, g:trillian/ctfe.MaxGetEntriesAllowed, p1.logID)#1", "-trillian/ctfe.parseGetEntriesRange(p3, g:trillian/ctfe.MaxGetEntriesAllowed, p1.logID)#0", "+1")
 					r.Check("getEntries:req.Count", got == want, r.Where(st), "Count = "+got+" (end + 1 − start)")
+					// … and it is a positive int64 no larger than the maximum, given the parser's
+					// postconditions (verified above for parseGetEntriesRange with maxRange = MaxGetEntriesAllowed)
+					ps := "trillian/ctfe.parseGetEntriesRange(p3, g:trillian/ctfe.MaxGetEntriesAllowed, p1.logID)"
+					s0, e0, g := linLeaf(ps+"#0"), linLeaf(ps+"#1"), linLeaf("g:trillian/ctfe.MaxGetEntriesAllowed")
+					one := big.NewInt(1)
+					facts := []ineq{
+						ineqFromLin(s0, nil, -1),                       // 0 ≤ start
+						ineqFromLin(s0.add(e0, -1), nil, 1),            // start ≤ end
+						ineqFromLin(e0.add(s0, -1).add(g, -1), one, 1), // end − start + 1 ≤ max
+						ineqFromLin(g, new(big.Int).Neg(maxInt64), 1),  // max ≤ MaxInt64
+						ineqFromLin(e0, new(big.Int).Neg(maxInt64), 1), // end ≤ MaxInt64
+					}
+					okR, why := inInt64(facts, r.D.Lin(st.Val, nil))
+					pos := entailsLE(facts, r.D.Lin(st.Val, nil), one, -1) // 1 ≤ count
+					r.Check("getEntries:req.Count-in-range", okR && pos, r.Where(st), "1 ≤ Count ≤ max ≤ MaxInt64 follows from the parser's postconditions "+why)
 				}
 			}
 		}
